@@ -408,6 +408,13 @@ class Router:
         coord1 = (area.latitude / 10000000, area.longitude / 10000000)
         coord2 = (lat / 10000000, lon / 10000000)
         x_distance, y_distance = Router.calculate_distance(coord1, coord2)
+        if area.angle:
+            # EN 302 931: the x axis of the area runs along the azimuth of the semi-major
+            # axis / long side (degrees clockwise from North), the y axis perpendicular to it.
+            azimuth = math.radians(area.angle)
+            north, east = -x_distance, y_distance
+            x_distance = north * math.cos(azimuth) + east * math.sin(azimuth)
+            y_distance = east * math.cos(azimuth) - north * math.sin(azimuth)
         if area_type in (GeoBroadcastHST.GEOBROADCAST_CIRCLE, GeoAnycastHST.GEOANYCAST_CIRCLE):
             return 1 - (x_distance / area.a) ** 2 - (y_distance / area.a) ** 2
         if area_type in (GeoBroadcastHST.GEOBROADCAST_ELIP, GeoAnycastHST.GEOANYCAST_ELIP):
